@@ -812,12 +812,15 @@ def _descrs(mf: MergeFn, r: SymExec) -> set[str]:
             for s, e, _ in r.terminals}
 
 
-def _referenced_region(ix: Any, f: Any, depth: int = 3) -> list[Any]:
-    """f and the private functions of its module it refers to, called directly or handed around as values (a table of strategies)"""
+def _referenced_region(ix: Any, f: Any, depth: int = 3, stop_at: tuple[str, ...] = ()) -> list[Any]:
+    """f and the private functions of its module it refers to, called directly or handed around as values (a table of strategies, the
+    step function of a fold); the functions named in `stop_at` are part of the region, what only they refer to is not"""
     out, seen, frontier = [f], {f.qual}, [f]
     for _ in range(depth):
         nxt = []
         for g in frontier:
+            if g.name in stop_at and g is not f:
+                continue  # what lies behind this function is its business, not the business of those that call it
             used = {n.id for n in ast.walk(g.node) if isinstance(n, ast.Name) and isinstance(n.ctx, ast.Load) and n.id.startswith("_")}
             for h in ix.all_functions:
                 if h.name in used and h.qual not in seen and h.module is g.module and h.cls is None and h.parent is None:
@@ -889,7 +892,10 @@ def _decided_in_callers(reg: list[Any], name: str, followed: set[tuple[str, int,
 def _merge_rules(rep: Report, ctx: Any, mp: Any) -> None:
     ix = ctx.py
     it, _ = ctx.flow
-    reg = _referenced_region(ix, mp)
+    # the functions that choose between the two declarations: from merge_properties down to the function that applies overrides to the
+    # declaration that was chosen as the base.  That one - with whatever it is made of - is asymmetric by contract (the result has the class
+    # of `base`); what it does with each override is the subject of R15.2 / R15.6, which side is handed to it as the base is decided here
+    reg = _referenced_region(ix, mp, stop_at=(MERGE_BASE_FN,))
     world = World(ix, mp.module)
     follow, predicates = _followed_helpers(reg, mp, world)
     two_args = [f for f in reg if len([*f.node.args.posonlyargs, *f.node.args.args]) >= 2 and f.node.args.vararg is None]
@@ -1623,16 +1629,37 @@ def _result_attr_sites(funcs: list[Any], attr: str) -> list[tuple[Any, ast.AST, 
     return out
 
 
+def _base_region(ix: Any, mca: Any) -> list[Any]:
+    """the function that applies the overrides to the base and the private functions it is made of: those it calls and those it hands on
+    as values (the step function of a fold)"""
+    return list({f.qual: f for f in [*region(ix, mca), *_referenced_region(ix, mca)]}.values())
+
+
+def _fold_element_params(f: Any, g: Any, seq: str) -> set[str]:
+    """the parameters of g that stand for one element of `seq` (a variable of f) where f folds g over it: `reduce(g, seq[, initial])` calls
+    g(accumulated, element) for each element in turn - the loop `for x in seq: acc = g(acc, x)` written as a call"""
+    pos = [p.arg for p in [*g.node.args.posonlyargs, *g.node.args.args]]
+    out: set[str] = set()
+    for c in calls_in(f.node):
+        if call_name(c).rsplit(".", 1)[-1] == "reduce" and 2 <= len(c.args) <= 3 and not c.keywords and isinstance(c.args[0], ast.Name) and \
+                c.args[0].id == g.name and norm(c.args[1]) == seq and len(pos) >= 2:
+            out.add(pos[1])
+    return out
+
+
 def _required_and_members(rep: Report, ctx: Any, cfgs: dict[str, CFG]) -> None:
     ix = ctx.py
     mca = ix.func("merge_properties._merge_common_attributes")
     # `required` of the merged property is given in _merge_common_attributes or in a helper it hands the accumulated property and one override to
-    sites = _result_attr_sites(region(ix, mca), "required")
+    sites = _result_attr_sites(_base_region(ix, mca), "required")
     rep.require(sites, "where `required` of the merged property is given (region of _merge_common_attributes)")
-    each = {norm(lp.target) for lp in ast.walk(mca.node) if isinstance(lp, ast.For) and norm(lp.iter) == "extend_with"}  # one override at a time
+    overrides = mca.node.args.vararg.arg if mca.node.args.vararg else "extend_with"
+    each = {norm(lp.target) for lp in ast.walk(mca.node) if isinstance(lp, ast.For) and norm(lp.iter) == overrides}  # one override at a time
     for g, node, acc, value in sites:
         over = set(each) if g is mca else {p_ for call in calls_in(mca.node) if call_name(call) == g.name
                                            for p_, a in (_bind_args(g.node, call) or {}).items() if norm(a) in each}
+        if g is not mca:  # a fold over the overrides hands them to its step function one at a time, as the second argument
+            over |= {p_ for p_ in _fold_element_params(mca, g, overrides)}
         want = {f"{acc}.required"} | {f"{o}.required" for o in over}
         ok = _disjuncts(value, Locals(g.node)) == want and len(want) == 2
         rep.check(ok, "R15.2", "_merge_common_attributes::required-disjunction", "merged requiredness is not `current.required or override.required`",
@@ -1777,7 +1804,7 @@ def _leaves(e: ast.expr, g: Any, reg: list[Any], via: frozenset[str] = frozenset
 def _merged_default(rep: Report, ctx: Any, cfgs: dict[str, CFG]) -> None:
     ix = ctx.py
     mca = ix.func(f"merge_properties.{MERGE_BASE_FN}")
-    reg = region(ix, mca)
+    reg = _base_region(ix, mca)
     sites = _result_attr_sites(reg, "default")
     rep.require(sites, f"where `default` of the merged property is given (region of {MERGE_BASE_FN})")
     for g, c, acc, value in sites:
